@@ -482,6 +482,34 @@ fn check_table() -> (u64, u64, Vec<(String, String)>) {
     if !d2.allow_uninit || d2.info.size != std::mem::size_of::<(u8, Custom)>() {
         bad.push(("table/custom-registration".into(), format!("{:?}", d2)));
     }
+    // a rejected registration (the type is already there) must leave the table as it was
+    {
+        let mut t3 = StaticTypeResolver::new();
+        t3.add_type::<Custom>();
+        let before = t3.to_json_string().expect("json");
+        let r = catch_unwind(AssertUnwindSafe(|| t3.add_type_allow_uninit::<Custom>()));
+        if r.is_ok() {
+            bad.push(("table/duplicate-registration-accepted".into(), "registering a type twice did not fail".into()));
+        }
+        let after = t3.to_json_string().expect("json");
+        if before != after {
+            bad.push(("table/rejected-registration-changed-the-table".into(), format!("before {} after {}", before, after)));
+        }
+        // a table produced elsewhere (numbers that are not the host's)
+        let foreign: BTreeMap<String, DynamicTypeInfo> = serde_json::from_str(
+            r#"{"usize":{"info":{"name":"usize","size":4,"align":4},"allow_uninit":true},"String":{"info":{"name":"String","size":12,"align":4},"allow_uninit":false}}"#,
+        )
+        .expect("foreign table");
+        let mut t4 = StaticTypeResolver::from(foreign);
+        let before = t4.to_json_string().expect("json");
+        let _ = catch_unwind(AssertUnwindSafe(|| t4.add_type_allow_uninit::<usize>()));
+        let _ = catch_unwind(AssertUnwindSafe(|| t4.add_type::<String>()));
+        let after = t4.to_json_string().expect("json");
+        let a = t4.type_info::<usize>();
+        if before != after || a.size != 4 || a.align != 4 || t4.dynamic_type_info("String").info.size != 12 {
+            bad.push(("table/rejected-registration-changed-the-table".into(), format!("a table loaded with usize = 4/4, String = 12/4 answers {:?} after rejected registrations; before {} after {}", a, before, after)));
+        }
+    }
     (count, n_entries, bad)
 }
 
